@@ -411,6 +411,10 @@ def run(prog, rep, tier):
         raise AnalysisError('PARAM-dropped: returns of MPS.get_theta not found')
     if check_perm_direction(prog, rep) < 1:
         raise AnalysisError('PERM-direction: use of the map_incoming_flat index list not found')
+    rep.rule('FORM-canonicalize-all-bonds', 'from_Bflat decides on canonical_form() from the bond '
+             'dimensions of the constructed state')
+    if check_canonicalize_guard(prog, rep) < 1:
+        raise AnalysisError('FORM-canonicalize-all-bonds: guard of canonical_form in from_Bflat not found')
     rep.rule('SITE-rmw-order', 'a one-site read-modify-write through get_B/set_B is not '
              'separated by a write to another (possibly identical) site')
     check_rmw_order(prog, rep)
@@ -808,4 +812,42 @@ def check_leg_side_direction(prog, rep):
                                   '(get_charge includes the direction) flip sign between the '
                                   'branches' % (name, *['%s%s' % (s_, '.conj()' if c_ else '')
                                                         for s_, c_, _ in alts[:2]]), st.lineno)
+    return n
+
+
+# ------------------------------------------------------------------ FORM-canonicalize-all-bonds
+def check_canonicalize_guard(prog, rep):
+    """FORM-canonicalize-all-bonds: MPS.from_Bflat labels the raw tensors with the requested form
+    and placeholder Schmidt values; that is only right when EVERY bond of the constructed state is
+    trivial -- including the bond that closes an infinite unit cell and the outer bonds of a
+    segment, which no pair of neighbouring input tensors shows. The test that decides whether
+    canonical_form() can be skipped therefore ranges over the bond dimensions of the constructed
+    object (`.chi`), not over the shapes of the inputs."""
+    m = prog.module('tenpy/networks/mps.py')
+    n = 0
+    for q in ('MPS.from_Bflat', ):
+        f = m.func(q)
+        res = None
+        for st in ast.walk(f):
+            if isinstance(st, ast.Assign) and isinstance(st.targets[0], ast.Name) and isinstance(
+                    st.value, ast.Call) and unparse(st.value.func) == 'cls':
+                res = st.targets[0].id
+        if res is None:
+            raise AnalysisError('%s: construction through cls(..) not found' % q)
+        for st in ast.walk(f):
+            if isinstance(st, ast.If) and any(
+                    isinstance(c, ast.Call) and unparse(c.func) == res + '.canonical_form'
+                    for c in ast.walk(st)):
+                n += 1
+                ok = any(isinstance(x, ast.Attribute) and x.attr == 'chi' and
+                         unparse(x.value) == res for x in ast.walk(st.test))
+                rep.instance('FORM-canonicalize-all-bonds', {'function': q,
+                                                             'test': unparse(st.test)[:70], 'ok': ok})
+                if not ok:
+                    rep.violation('FORM-canonicalize-all-bonds', m, q, 'skip-test:' + res,
+                                  'canonical_form() is skipped under `%s`, which does not look at '
+                                  'the bond dimensions `%s.chi` of the constructed state: the bond '
+                                  'closing an infinite unit cell (outer bonds of a segment) is not '
+                                  'covered, the state is labelled canonical with placeholder '
+                                  'Schmidt values' % (unparse(st.test)[:60], res), st.lineno)
     return n
